@@ -118,6 +118,17 @@ func runCheck(id, tier string) (code int) {
 		return p386, nil
 	}
 	p.Run(ctx)
+	if tier == "thorough" && os.Getenv("VERIF_NO386") == "" {
+		// build-config matrix: the same rules on linux/386 (int width, build-tagged files); obligations are merged with a config suffix
+		if q, err := ctx.Load386(); err != nil {
+			r.Fail(id+".infra", "load:linux/386", "-", err.Error())
+		} else {
+			r2 := core.NewReport(id, tier, seed, verifDir())
+			ctx2 := &props.Ctx{P: q, R: r2, Thorough: true, Load386: ctx.Load386}
+			p.Run(ctx2)
+			r.Merge(r2, core.Suffix386)
+		}
+	}
 	return r.Finish(repo)
 }
 
